@@ -4,7 +4,7 @@ from . import gk
 
 PROP = "C03"
 META = {
-    "bounds": "cliquishness order 4: all graphs n<=5 (6 thorough); order 5: n<=4 quick (degenerate), n=5 thorough; "
+    "bounds": "cliquishness order 4 and 5: all graphs n<=6 (order 4: n=7 thorough); "
               "Newman chunk kernels: all graphs n<=4, real V; Python-level formulas: see C03_py obligations",
     "assumptions": ["exact real arithmetic; C integer widths erased (int16 degree / int32 products: separate width lemma)",
                     "degree argument = row sums of the adjacency (what Network.local_cliquishness passes)"],
@@ -30,16 +30,15 @@ def prepare(tier):
 def obligations(tier):
     th = tier == "thorough"
     obs = []
-    for n in (3, 4):
+    for n in (3, 4, 5):
         obs.append((gk.ob_cliquishness, dict(name=f"C03|cliquishness4|n={n}", prop=PROP, order=4, n=n), 900))
-    for i in range(5):
-        obs.append((gk.ob_cliquishness, dict(name=f"C03|cliquishness4|n=5|node={i}", prop=PROP, order=4, n=5, nodes=[i]), 1200))
-    obs.append((gk.ob_cliquishness, dict(name="C03|cliquishness5|n=4", prop=PROP, order=5, n=4), 900))
+        obs.append((gk.ob_cliquishness, dict(name=f"C03|cliquishness5|n={n}", prop=PROP, order=5, n=n), 900))
+    for i in range(6):
+        obs.append((gk.ob_cliquishness, dict(name=f"C03|cliquishness4|n=6|node={i}", prop=PROP, order=4, n=6, nodes=[i]), 1200))
+        obs.append((gk.ob_cliquishness, dict(name=f"C03|cliquishness5|n=6|node={i}", prop=PROP, order=5, n=6, nodes=[i]), 1500))
     if th:
-        for i in range(6):
-            obs.append((gk.ob_cliquishness, dict(name=f"C03|cliquishness4|n=6|node={i}", prop=PROP, order=4, n=6, nodes=[i]), 3000))
-        for i in range(5):
-            obs.append((gk.ob_cliquishness, dict(name=f"C03|cliquishness5|n=5|node={i}", prop=PROP, order=5, n=5, nodes=[i]), 3000))
+        for i in range(7):
+            obs.append((gk.ob_cliquishness, dict(name=f"C03|cliquishness4|n=7|node={i}", prop=PROP, order=4, n=7, nodes=[i]), 3000))
     for n in ((3, 4) if not th else (3, 4, 5)):
         obs.append((gk.ob_newman_chunks, dict(name=f"C03|_mpi_newman_betweenness|defining-sum|n={n}", prop=PROP, n=n, nsi=False), 1200))
     try:
